@@ -81,7 +81,7 @@ macro_rules! c13_p {
             c13_forward($p);
         }
         #[kani::proof]
-        #[kani::unwind(4)]
+        #[kani::unwind(300)]
         pub fn $b() {
             c13_backward($p);
         }
